@@ -129,7 +129,12 @@ pub async fn build_node(
             let g = &built.valid_twin[path[0]];
             let mk = |s: usize, ts: u64| {
                 let slip: Slip = g.transactions[s].to[0].clone();
-                make_tx(&[slip.clone()], &[(builder.pk, slip.amount)], &builder.sk, ts)
+                if i % 3 == 0 {
+                    // two outputs, one of them with amount zero (never enters the spendable set)
+                    make_tx(&[slip.clone()], &[(builder.pk, slip.amount), (builder.pk, 0)], &builder.sk, ts)
+                } else {
+                    make_tx(&[slip.clone()], &[(builder.pk, slip.amount)], &builder.sk, ts)
+                }
             };
             let mut good_txs = vec![];
             let mut bad_txs = vec![];
@@ -288,6 +293,15 @@ pub struct RunOut {
     /// index into `delivered` of the first delivery in one of the purge-regime finding classes
     /// (the hypotheses `conn` / `no_late` of proofs/PurgeProofs.v fail), with the finding id
     pub first_purge_known: Option<(usize, &'static str)>,
+    /// first delivery of a block not connected to the stored chain (orphan, or descendant of
+    /// one) that actually disturbed tip / index / ledger / flags of other blocks
+    pub first_orphan_effect: Option<usize>,
+    /// per delivery: total number of block ring entries minus number of stored blocks
+    pub ring_surplus: Vec<i64>,
+    /// per delivery: the wallet's slips as sorted (utxo key, spent) list
+    pub wallet_slips: Vec<Vec<(saito_core::core::defs::SaitoUTXOSetKey, bool)>>,
+    /// deliveries skipped because the block's parent was not stored (orphans not allowed)
+    pub skipped: usize,
 }
 
 pub fn intern_tree(t: &BuiltTree) -> Interned {
@@ -384,7 +398,7 @@ pub async fn deliver(t: &BuiltTree, int: &mut Interned, order: &[usize], allow_o
     let mut np = params(t.spec.gp, t.spec.loading_completed);
     np.prune_after_blocks = t.spec.pab;
     let mut node = Node::new(&np, 1);
-    let mut out = RunOut { obs: vec![], rows: vec![], delivered: vec![], first_orphan: None, first_purge_known: None };
+    let mut out = RunOut { obs: vec![], rows: vec![], delivered: vec![], first_orphan: None, first_purge_known: None, first_orphan_effect: None, ring_surplus: vec![], wallet_slips: vec![], skipped: 0 };
     saito_core::core::consensus::blockchain::VERIF_WIND_STEPS.with(|c| c.set((0, u64::MAX)));
     for &i in order {
         let block = t.blocks[i].clone();
@@ -395,14 +409,30 @@ pub async fn deliver(t: &BuiltTree, int: &mut Interned, order: &[usize], allow_o
         } else {
             node.blockchain.blocks.contains_key(&block.previous_block_hash)
         };
-        if !parent_known {
+        // with initial_loading_completed a block whose (non-zero) parent is unknown is answered
+        // Retry / Invalid and nothing is stored: such deliveries are part of the modelled behaviour
+        let inert_orphan = !parent_known
+            && t.spec.loading_completed
+            && !node.blockchain.blocks.is_empty()
+            && block.previous_block_hash != [0u8; 32];
+        if !parent_known && !inert_orphan {
             if !allow_orphans {
+                out.skipped += 1;
                 continue;
             }
             if out.first_orphan.is_none() {
                 out.first_orphan = Some(out.delivered.len());
             }
         }
+        let disconnected = (!parent_known && !inert_orphan)
+            || (parent_known
+                && !node.blockchain.blocks.is_empty()
+                && purge_known_class(&node, t, i) == Some("purge-disconnected-fork"));
+        let before_snap = if disconnected && out.first_orphan_effect.is_none() {
+            std::panic::catch_unwind(AssertUnwindSafe(|| node.snapshot())).ok()
+        } else {
+            None
+        };
         if parent_known && out.first_purge_known.is_none() && !node.blockchain.blocks.is_empty() {
             if let Some(id) = purge_known_class(&node, t, i) {
                 out.first_purge_known = Some((out.delivered.len(), id));
@@ -423,6 +453,11 @@ pub async fn deliver(t: &BuiltTree, int: &mut Interned, order: &[usize], allow_o
                         } else {
                             "?".to_string()
                         };
+                        out.ring_surplus.push(0);
+                        out.wallet_slips.push(vec![]);
+                        if before_snap.is_some() {
+                            out.first_orphan_effect = Some(out.delivered.len() - 1);
+                        }
                         out.rows.push(vec![vec![8]]);
                         out.obs.push(Obs {
                             code: 8,
@@ -449,10 +484,29 @@ pub async fn deliver(t: &BuiltTree, int: &mut Interned, order: &[usize], allow_o
                         .collect();
                     eprintln!("TRACE after block {} ({:?}): amount {} at {:?}", i + 1, class, amt, ks);
                 }
+                if let Some(bs) = &before_snap {
+                    let others_changed = bs.blocks.iter().any(|x| !snap.blocks.contains(x));
+                    if bs.tip_hash != snap.tip_hash || bs.lc_index != snap.lc_index || bs.utxo != snap.utxo || others_changed {
+                        out.first_orphan_effect = Some(out.delivered.len() - 1);
+                    }
+                }
+                let ring_total: usize = node.blockchain.blockring.ring.iter().map(|it| it.block_hashes.len()).sum();
+                out.ring_surplus.push(ring_total as i64 - snap.blocks.len() as i64);
+                {
+                    let w = node.wallet_lock.read().await;
+                    let mut ws: Vec<(saito_core::core::defs::SaitoUTXOSetKey, bool)> = w.slips.iter().map(|(k, v)| (*k, v.spent)).collect();
+                    ws.sort();
+                    out.wallet_slips.push(ws);
+                }
                 out.rows.push(snapshot_rows(int, class.code(), steps, &snap));
                 out.obs.push(Obs { code: class.code(), snap: Some(snap), wallet, panic_msg: None });
             }
             Err(msg) => {
+                out.ring_surplus.push(0);
+                out.wallet_slips.push(vec![]);
+                if before_snap.is_some() {
+                    out.first_orphan_effect = Some(out.delivered.len() - 1);
+                }
                 out.rows.push(vec![vec![9]]);
                 out.obs.push(Obs { code: 9, snap: None, wallet: (0, 0), panic_msg: Some(msg) });
                 break;
@@ -628,6 +682,27 @@ pub fn oracle_c03(t: &BuiltTree, s: &ChainSnapshot) -> Vec<String> {
     for ((_, id, _), r) in s.blocks.iter().zip(s.in_ring.iter()) {
         if !*r {
             f.push(format!("stored block at height {} has no entry in the block ring", id));
+        }
+    }
+    // purge arithmetic: nothing stored at or below tip - 2gp, the chain window reaches down to
+    // tip - 2gp + 1 (or the root), genesis_block_id = tip - gp once the tip is beyond 2gp
+    let gp = t.spec.gp;
+    if s.tip_id >= 2 * gp + 1 {
+        for (_, id, _) in &s.blocks {
+            if *id + 2 * gp <= s.tip_id {
+                f.push(format!("block at id {} is still stored although the tip is {} (purge horizon {})", id, s.tip_id, s.tip_id - 2 * gp));
+            }
+        }
+        if s.genesis_block_id != s.tip_id - gp {
+            f.push(format!("genesis_block_id is {} but tip - genesis_period is {}", s.genesis_block_id, s.tip_id - gp));
+        }
+    } else if s.genesis_block_id != 0 {
+        f.push(format!("genesis_block_id is {} before the tip passed 2 * genesis_period", s.genesis_block_id));
+    }
+    if let Some(&low) = chain.last() {
+        let want = std::cmp::max(t.blocks[0].id, (s.tip_id + 1).saturating_sub(2 * gp));
+        if t.blocks[low].id > want {
+            f.push(format!("stored chain window ends at id {} but should reach down to id {}", t.blocks[low].id, want));
         }
     }
     if s.tip_id != 0 && (s.last_block_id != s.tip_id || s.last_block_hash != s.tip_hash) {
@@ -915,7 +990,7 @@ pub fn fork_family(rng: &mut Rng, k: usize) -> TreeSpec {
         });
     }
     let pab = if deep { 8 } else { [2u64, 8, 3][(k / 19) % 3] };
-    TreeSpec { gp, nodes, n_outputs, loading_completed: false, pab }
+    TreeSpec { gp, nodes, n_outputs, loading_completed: (k / 37) % 3 == 1, pab }
 }
 
 /// Long chains with late forks, for the purge regime (ids beyond 2 * genesis_period, ring
@@ -925,9 +1000,15 @@ pub fn fork_family(rng: &mut Rng, k: usize) -> TreeSpec {
 /// enumerates the family.
 pub fn long_family(rng: &mut Rng, k: usize) -> TreeSpec {
     let gp = [3u64, 3, 4, 2][k % 4];
-    let m = (2 * gp as usize) + 2 + (k / 4) % 4; // main chain blocks after genesis
-    let d = (k / 3) % (gp as usize + 2); // fork depth below the main tip
-    let s = d + [1usize, 2, 0, 3][(k / 5) % 4]; // side branch length
+    // variant "ring wrap": the fork point has id 2gp - 1, so both branches hold a block with id
+    // 2gp (slot 0) and the reorganisation unwinds it (previous slot = last slot of the ring)
+    let wrap = k % 8 == 7;
+    let m = if wrap { 2 * gp as usize + 1 } else { (2 * gp as usize) + 2 + (k / 4) % 4 }; // main chain blocks after genesis
+    let d = if wrap { 3 } else { (k / 3) % (gp as usize + 2) }; // fork depth below the main tip
+    let s = if wrap { 4 } else { d + [1usize, 2, 0, 3][(k / 5) % 4] }; // side branch length
+    // variant "early sibling": a second block at id 3, off-chain; it must be purged together with
+    // the chain block of that id once the tip reaches 3 + 2gp
+    let early_sibling = (k / 2) % 3 == 1;
     let dts = [2 * HEARTBEAT, 1000 * HEARTBEAT, 10 * HEARTBEAT];
     let dt_main = dts[(k / 2) % 3];
     let dt_side = dts[(k / 7) % 3];
@@ -954,6 +1035,9 @@ pub fn long_family(rng: &mut Rng, k: usize) -> TreeSpec {
             bf_boost: 0,
         });
     }
+    if early_sibling {
+        nodes.push(NodeSpec { parent: Some(1), gt: true, invalid: false, dt: dt_side + 7, spend: None, bad_spend: false, bf_boost: 0 });
+    }
     let fork = m - d; // index of the fork point (main tip is index m)
     let mut parent = fork;
     for i in 0..s {
@@ -969,7 +1053,7 @@ pub fn long_family(rng: &mut Rng, k: usize) -> TreeSpec {
         });
         parent = nodes.len() - 1;
     }
-    TreeSpec { gp, nodes, n_outputs, loading_completed: false, pab: 1_000_000 }
+    TreeSpec { gp, nodes, n_outputs, loading_completed: (k / 9) % 4 == 3, pab: 1_000_000 }
 }
 
 /// a delivery order: parents-before-children mostly, sometimes shuffled, with duplicates
@@ -1048,10 +1132,38 @@ pub struct Profile {
 }
 
 /// classification of an oracle failure into a listed known finding (id) or None
+/// stable repair of a delivery order: every block after its parent
+pub fn repair_order(order: &[usize], parents: &[Option<usize>]) -> Vec<usize> {
+    let n = parents.len();
+    let mut placed = vec![false; n];
+    let mut out = vec![];
+    let mut rest: Vec<usize> = order.to_vec();
+    while !rest.is_empty() {
+        let mut progressed = false;
+        let mut k = 0;
+        while k < rest.len() {
+            let b = rest[k];
+            if placed[b] || parents[b].map(|p| placed[p]).unwrap_or(true) {
+                placed[b] = true;
+                out.push(b);
+                rest.remove(k);
+                progressed = true;
+                break;
+            }
+            k += 1;
+        }
+        if !progressed {
+            break;
+        }
+    }
+    out
+}
+
 pub fn classify(prop: &str, what: &str, after_orphan: bool) -> Option<&'static str> {
-    // every failure at or after the delivery of a block whose parent was unknown
-    // (with a non-empty block store and the orphan branch enabled) belongs to the
-    // listed finding about the out-of-order branch of add_block
+    // a failure belongs to the listed finding about the out-of-order branch of add_block if it
+    // is the oracle's own ORPHAN message, or occurs at / after the first delivery of a block
+    // not connected to the stored chain that actually disturbed tip, index, ledger or the flags
+    // of other blocks (from then on the node's state is inconsistent by the finding itself)
     if after_orphan || what.starts_with("ORPHAN") {
         return Some("orphan-branch");
     }
@@ -1080,21 +1192,27 @@ pub async fn run_property(profile: &Profile, args: &Args) {
         } else {
             let gp = *rng.pick(&[3u64, 5, 8, 20]);
             let max_nodes = if thorough { 14 } else { 11 };
-            random_spec(&mut rng, max_nodes, gp, profile.invalid_pct, false)
+            let loading = rng.chance(1, 3);
+            random_spec(&mut rng, max_nodes, gp, profile.invalid_pct, loading)
         };
         let family = ti < n_family;
+        let wanted_nodes = spec.nodes.len();
         let t = build_tree(spec).await;
+        summary.count("tree_nodes_dropped_by_builder", &format!("{}", (wanted_nodes - t.blocks.len()).min(6)));
         if t.blocks.len() < 2 {
+            summary.count("tree_skipped_too_small", "true");
             continue;
         }
         let parents: Vec<Option<usize>> = t.spec.nodes.iter().map(|n| n.parent).collect();
         let mut int = intern_tree(&t);
         let blocks_g = gallina_blocks(&t, &mut int);
         for oi in 0..orders_per_tree {
-            let order = if oi == 0 {
+            let loading = t.spec.loading_completed;
+            let mut order = if oi == 0 {
                 (0..t.blocks.len()).collect::<Vec<_>>()
             } else {
-                random_order(&mut rng, t.blocks.len(), profile.in_order_pct, profile.allow_orphans, &parents)
+                // with initial_loading_completed out-of-order deliveries are inert and part of the model
+                random_order(&mut rng, t.blocks.len(), profile.in_order_pct, profile.allow_orphans || loading, &parents)
             };
             if let Some(only) = &args.replay {
                 if only.parse::<usize>().ok() != Some(case_no) {
@@ -1105,7 +1223,12 @@ pub async fn run_property(profile: &Profile, args: &Args) {
                 eprintln!("replaying case {}: {}", case_no, spec_json(&t, &order));
             }
             let orphans_now = profile.allow_orphans && rng.chance(1, 5);
+            if profile.allow_orphans && !orphans_now && !loading {
+                // no orphan deliveries in this history: repair the order instead of dropping blocks
+                order = repair_order(&order, &parents);
+            }
             let out = deliver(&t, &mut int, &order, orphans_now).await;
+            summary.count("deliveries_skipped_parent_unknown", &format!("{}", out.skipped.min(4)));
             let order = out.delivered.clone();
             if args.replay.is_some() {
                 for (k, o) in out.obs.iter().enumerate() {
@@ -1123,11 +1246,19 @@ pub async fn run_property(profile: &Profile, args: &Args) {
                     "C03" => {
                         if let Some(s) = &o.snap {
                             fails = oracle_c03(&t, s);
+                            if out.ring_surplus[k] != 0 {
+                                fails.push(format!("block ring holds {} entries more than there are stored blocks", out.ring_surplus[k]));
+                            }
                         } else {
                             fails.push(format!("add_block panicked: {:?}", o.panic_msg));
                         }
                     }
-                    "C04" => fails = oracle_c04(&prev, o),
+                    "C04" => {
+                        fails = oracle_c04(&prev, o);
+                        if (o.code == 5 || o.code == 3 || o.code == 4) && o.snap.is_some() && k > 0 && out.wallet_slips[k] != out.wallet_slips[k - 1] {
+                            fails.push("rejected block changed the wallet's slips (keys / spent flags)".to_string());
+                        }
+                    }
                     _ => {
                         fails = oracle_c05(&t, order[k], &prev, o);
                         if let Some(m) = &o.panic_msg {
@@ -1148,8 +1279,11 @@ pub async fn run_property(profile: &Profile, args: &Args) {
                 }
                 for w in fails {
                     let what = format!("delivery {} (block {}): {}", k + 1, order[k] + 1, w);
-                    let tainted = out.first_orphan.map(|fo| k >= fo).unwrap_or(false);
-                    let purge_id = out.first_purge_known.and_then(|(fo, id)| if k >= fo { Some(id) } else { None });
+                    let tainted = out.first_orphan.is_some() && out.first_orphan_effect.map(|fo| k >= fo).unwrap_or(false);
+                    let purge_id = out.first_purge_known.and_then(|(fo, id)| {
+                        let effective = if id == "purge-disconnected-fork" { out.first_orphan_effect.unwrap_or(usize::MAX) } else { fo };
+                        if k >= effective { Some(id) } else { None }
+                    });
                     match classify(profile.prop, &w, tainted).or(purge_id) {
                         Some(id) => summary.known_hit(id, case_no, &what),
                         None => summary.oracle_failure(case_no, &what, &desc),
@@ -1164,6 +1298,8 @@ pub async fn run_property(profile: &Profile, args: &Args) {
             summary.count("rejected", &format!("{}", rejected.min(4)));
             summary.count("in_order", &format!("{}", order.iter().enumerate().all(|(i, x)| i == *x)));
             summary.count("orphan_history", &format!("{}", out.first_orphan.is_some()));
+            summary.count("loading_completed", &format!("{}", loading));
+            summary.count("retry_or_too_old_answers", &format!("{}", out.obs.iter().filter(|o| o.code == 4).count().min(4)));
             summary.count("purge_known_class", out.first_purge_known.map(|(_, id)| id).unwrap_or("none"));
             let nontrivial = match profile.prop {
                 "C04" => rejected > 0,
